@@ -21,6 +21,8 @@ const ID = "C08"
 type Case struct {
 	Script gen.Script `json:"script"`
 	Align  []int      `json:"align,omitempty"` // [0] column 0 default, [i] column i: 0 unset 1 left 2 right 3 centre
+	// Pre > 0: the wrapper is created and rendered once after Pre-1 operations; the checked render goes through it again.
+	Pre int `json:"pre,omitempty"`
 }
 
 var delimRe = regexp.MustCompile(`^ ?(:?)-{3,}(:?) ?$`)
@@ -62,7 +64,16 @@ func effAlign(c Case, col int) int {
 }
 
 func CheckCase(c Case) *ev.Violation {
-	t, m := gen.Build(c.Script)
+	t := gen.NewTable(c.Script.Creator)
+	m := &gen.Model{}
+	var early *markdown.MarkdownTable
+	for i, op := range c.Script.Ops {
+		if c.Pre > 0 && i == c.Pre-1 {
+			early = markdown.Wrap(t)
+			early.Render()
+		}
+		m.Step(t, op)
+	}
 	n := m.NCols()
 	if n != m.MaxEver {
 		return nil
@@ -75,7 +86,11 @@ func CheckCase(c Case) *ev.Violation {
 			t.Column(i).SetProperty(align.PropertyType, v)
 		}
 	}
-	w := markdown.Wrap(t)
+	gen.ScrambleRowsCopy(t) // the caller may do what it likes with the copy it was handed
+	w := early
+	if w == nil {
+		w = markdown.Wrap(t)
+	}
 	out, err := w.Render()
 	if n == 0 || !m.HeaderSet {
 		if err == nil {
@@ -233,6 +248,12 @@ func Classify(c Case) (bool, interface{}, []string) {
 	}
 	if m.HeaderSet && len(m.Header) < n {
 		add("short-header")
+	}
+	if c.Pre > 0 && c.Pre <= len(c.Script.Ops) {
+		add("rendered-while-incomplete")
+	}
+	if m.Mutated {
+		add("item-mutated-and-updated")
 	}
 	for i := 1; i <= n; i++ {
 		own := 0
